@@ -28,7 +28,7 @@ def h_find_arg_optimal(env):
     p = env.params
     n = p["n"]
     mode = env.choice("mode", ["min", "max"])
-    x = Variable("x", fx.domain("d", range(n)))
+    x = Variable("x", fx.domain("d", fx.values(n)))
     relkind = env.choice("relkind", p.get("relkinds", ["callable", "relation"]))
     if relkind == "callable":
         tab = fx.LazyTable(env, "c", [x], p.get("kinds", ("fin",)))
@@ -74,7 +74,7 @@ def h_find_optimal(env):
     mode = env.choice("mode", ["min", "max"])
     vkind = env.choice("vkind", p.get("vkinds", ["plain", "dict", "func"]))
     kinds = p.get("kinds", ("fin",))
-    x, xcost = fx.make_variable(env, "x", fx.domain("d", range(n)), vkind, kinds)
+    x, xcost = fx.make_variable(env, "x", fx.domain("d", fx.values(n)), vkind, kinds)
     others = [fx.make_variable(env, "y%d" % i, fx.domain("dy", range(2)), "plain")[0] for i in range(p.get("n_other", 1))]
     cons = []
     tabs = []
@@ -138,7 +138,7 @@ def h_optimal_cost_value(env):
     n = p["n"]
     mode = env.choice("mode", ["min", "max"])
     vkind = env.choice("vkind", ["dict", "func", "plain"])
-    x, xcost = fx.make_variable(env, "x", fx.domain("d", range(n)), vkind, p.get("kinds", ("fin",)))
+    x, xcost = fx.make_variable(env, "x", fx.domain("d", fx.values(n)), vkind, p.get("kinds", ("fin",)))
     if env.symbolic or True:
         import pvc.models as M
         R.random = M.RandomModel(env)
